@@ -5,8 +5,31 @@ use rdbv::checks;
 use rdbv::runner::*;
 use std::path::{Path, PathBuf};
 
+struct StderrLog;
+impl log::Log for StderrLog {
+    fn enabled(&self, m: &log::Metadata) -> bool {
+        m.level() <= log::max_level()
+    }
+    fn log(&self, r: &log::Record) {
+        if self.enabled(r.metadata()) {
+            eprintln!("[{} {}] {}", r.level(), std::thread::current().name().unwrap_or("?"), r.args());
+        }
+    }
+    fn flush(&self) {}
+}
+static LOGGER: StderrLog = StderrLog;
+
 fn main() {
     rdbv::guard::install_panic_hook();
+    if let Ok(l) = std::env::var("VERIF_LOG") {
+        let _ = log::set_logger(&LOGGER);
+        log::set_max_level(match l.as_str() {
+            "debug" => log::LevelFilter::Debug,
+            "info" => log::LevelFilter::Info,
+            "warn" => log::LevelFilter::Warn,
+            _ => log::LevelFilter::Error,
+        });
+    }
     if std::env::var("VERIF_VERBOSE").is_ok() {
         rdbv::guard::VERBOSE.store(true, std::sync::atomic::Ordering::Relaxed);
     }
